@@ -513,6 +513,46 @@ func c01Run(t *engine.T, shard string) {
 						return "passed", nil
 					})
 				}
+				// containers typed template.HTML that come from Go: a plain string appended to / assigned into one does
+				// not become trusted by being stored there (the operation is refused, or the text stays escaped)
+				{
+					tr := c01Atom{"trusted", "<b>T</b>"}
+					for _, f := range []struct {
+						src   string
+						atoms []c01Atom
+					}{
+						{`<%= thl + ` + x.src + ` %>`, append([]c01Atom{tr}, x.val.atoms...)},
+						{`<% let l9 = thl + ` + x.src + ` %><%= l9[1] %>`, x.val.atoms},
+						{`<% let l9 = thl + ` + x.src + ` %><%= for (v9) in l9 { %><%= v9 %><% } %>`, append([]c01Atom{tr}, x.val.atoms...)},
+						{`<% thl[0] = ` + x.src + ` %><%= thl %>`, x.val.atoms},
+						{`<% thl[0] = ` + x.src + ` %><%= thl[0] %>`, x.val.atoms},
+						{`<% tha[0] = ` + x.src + ` %><%= tha[0] %>`, x.val.atoms},
+						{`<% thm["k"] = ` + x.src + ` %><%= thm["k"] %>`, x.val.atoms},
+						{`<% thm["n"] = ` + x.src + ` %><%= thm["n"] %>`, x.val.atoms},
+						{`<% thil[0] = ` + x.src + ` %><%= thil %>`, x.val.atoms},
+						{`<%= thil + ` + x.src + ` %>`, append([]c01Atom{tr}, x.val.atoms...)},
+					} {
+						f := f
+						src := c01Prelude + "A|" + f.src + "|B"
+						t.Case(fmt.Sprintf("typed-container payload=%q %s %s", p, x.name, q(src)), special, func() (string, *engine.Fail) {
+							e := &c01Env{p: p, partials: map[string]string{}}
+							c := e.context()
+							c.Set("thl", []template.HTML{"<b>T</b>"})
+							c.Set("tha", &[1]template.HTML{"<b>T</b>"})
+							c.Set("thm", map[string]template.HTML{"k": "<b>T</b>"})
+							c.Set("thil", []interface{}{template.HTML("<b>T</b>")})
+							out, err := Render(src, c)
+							if err != nil {
+								return "refused", nil
+							}
+							if fl := c01Match(out, append(append([]c01Atom{{"lit", "A|"}}, f.atoms...), c01Atom{"lit", "|B"})); fl != nil {
+								fl.Msg += " (template " + q(src) + ")"
+								return "", fl
+							}
+							return "passed", nil
+						})
+					}
+				}
 			}
 		}
 	case "js":
